@@ -293,6 +293,10 @@ pub fn render(flat: &Flat, cfg: &LayoutCfg, rng: &mut Rng) -> Rendered {
                         }
                         if rng.coin() {
                             out.text.push_str("/* gap */");
+                            if rng.chance(1, 3) {
+                                // several comments in one gap
+                                out.text.push_str(if rng.coin() { " /* gap 2 */" } else { "/*2*//* 3 */" });
+                            }
                             if rng.coin() {
                                 out.text.push(' ');
                             } else {
